@@ -38,6 +38,8 @@ CHECKS = {
                 note="Trusted: zipfile, lxml. Directory entries of the manifest (e.g. 'Pictures/') are not judged."),
     "C11": dict(tech=ENUM, ref="5/C11", text="Every seed document (a generated document holding every adjacency of <=2 inline kinds (and <=3 over a sub-alphabet) as paragraphs and headings, also inside list items, sections and table cells; the 4 templates; every sample) x every configuration {zip pretty, folder plain/pretty, flat XML plain/pretty} compared with the plain zip save of the same state (per-paragraph ODF-collapsed text, element skeleton, attributes); in-memory parts before/after each save; 5 save sequences of length <= 3.",
                 note="Trusted: zipfile, lxml, the white-space reading of mc/models/odfws.py. Flat XML compared on paragraph texts only."),
+    "C15": dict(tech=ENUM, ref="5/C15", text="Every read-only entry point found by introspection (public properties; methods named get_*/is_*/search*/match/text_at/*_text/to_*/as_*/show_*/iter_*/traverse*/serialize/__str__, replace(pattern) without replacement) of Document, body, meta, manifest, styles, content and of one instance of every element class present, on every bounded-size document (generated documents with run-length encoded tables / notes / TOC / lists / frames, the adjacency document, templates, samples), called twice: every parsed part and container part digested before/after each call, second answer equal to the first; exporters in A,B,A order across documents.",
+                note="Trusted: lxml. Lazily loading a part is not a change. Create-on-demand getters (get_variable_decls, get_user_field_decls) excluded by contract."),
 }
 
 NOT_YET = {}
